@@ -499,10 +499,16 @@ func init() {
 				mod := c07WithVersion(s.buf, ver)
 				field := mod[:16]
 				verStr := string(bytes.TrimRight(field, "\x00")) // what a reader of the field sees (pbcmpl: trailing NULs removed)
-				// which claims apply: the full outcome only when the header names the stream's own layout
-				proj := "gate"
-				if verStr == own {
-					proj = "full"
+				// The full outcome is compared except for one situation: a label 0.5.10 / 0.5.11 on a
+				// stream that is not of that layout sends the body through before000512* (C06's
+				// conversions, not part of the wire model); there only the gate decision is compared.
+				proj := "full"
+				base := verStr
+				if i := strings.IndexByte(base, '+'); i >= 0 {
+					base = base[:i]
+				}
+				if (base == "0.5.10" || base == "0.5.11") && s.layout != "0.5.10" {
+					proj = "gate"
 				}
 				if fullKind == "ok" {
 					c07Unmarshal(st, s.buf)
@@ -521,6 +527,10 @@ func init() {
 				}
 				c.Or.Case(fmt.Sprintf("%s version %s", s.id, hx(field)), true)
 				c.Or.Count("version-outcome:" + out)
+				if out == "gate:pass" {
+					// what the real code did behind the gate with a foreign label (not claimed, not compared)
+					c.Or.Count("foreign-label-raw-outcome:" + kind)
+				}
 				// ---- oracle
 				wantCompat := c07RefCompatible(verStr, compat)
 				bad, key := "", ""
